@@ -26,7 +26,7 @@ let handle toks = match toks with
     let b = bytes_of_hex h in
     let t = ref (init b) and a = ref (ainit b) and obs = ref [] and agree = ref true in
     List.iter (fun o ->
-      let (t', x) = step !t o in let (a', y) = astep !a o in
+      let (t', x) = bstep !t o in let (a', y) = astep !a o in
       t := t'; a := a';
       if x <> y || t'.buf <> render (a'.segs) @ a'.tail || t'.res <> ranges O (a'.segs) then agree := false;
       obs := Printf.sprintf "%s %d %s %s" (show_out x) (int_of_nat (t'.pos)) (hex_of_bytes (t'.buf)) (show_res (t'.res)) :: !obs) ops;
